@@ -244,6 +244,14 @@ func genIface(r *rand.Rand, idx int, placement string, stream string) IfaceJ {
 		it.Methods = append(it.Methods, MethodJ{Name: "VisitNode", Params: []VarJ{{Type: TyJ{K: "pointer", Elem: &lu}}, {Type: lu2}},
 			Results: []VarJ{{Type: TyJ{K: "universe", Name: "error"}}}})
 	}
+	if stream == "" && !used["CopyTo"] && r.Intn(3) == 0 {
+		// a parameter named like the type of a *later* parameter or result of the same signature, where that type is
+		// written plainly (not nested inside a composite type: that is the open finding K1): the parameter is renamed
+		used["CopyTo"], used["Handle"] = true, true
+		it.Methods = append(it.Methods,
+			MethodJ{Name: "CopyTo", Params: []VarJ{{Name: "string", Type: basicT("int")}, {Name: "dst", Type: basicT("string")}}, Results: []VarJ{{Type: basicT("int")}}},
+			MethodJ{Name: "Handle", Params: []VarJ{{Name: "error", Type: basicT("string")}, {Name: "int", Type: basicT("bool")}}, Results: []VarJ{{Type: basicT("int")}, {Type: TyJ{K: "universe", Name: "error"}}}})
+	}
 	if stream == "" && !used["PutBytes"] && r.Intn(3) == 0 {
 		// unnamed parameters of named types whose derived names are the predeclared `byte` / `rune`, which the same
 		// signature uses inside composite types
@@ -592,7 +600,14 @@ func dataConfig(in *DataInput, dir, templ, filename string, formatter string) st
 	if in.ReplaceLevel == "root" {
 		writeReplace("")
 	}
-	fmt.Fprintf(&cfg, "packages:\n  %s:\n", pkgSrc)
+	cfg.WriteString("packages:\n")
+	if in.ReplaceLevel == "parent" {
+		// the module's root package, recursive: the mocked package is a listed sub-package (with listed interfaces)
+		// that inherits the setting
+		cfg.WriteString("  example.com/m:\n    config:\n      recursive: true\n")
+		writeReplace("      ")
+	}
+	fmt.Fprintf(&cfg, "  %s:\n", pkgSrc)
 	if in.ReplaceLevel == "package" {
 		cfg.WriteString("    config:\n")
 		writeReplace("      ")
@@ -638,6 +653,9 @@ func (p c14) Run(c *Ctx, raw json.RawMessage) Case {
 		files["go.sum"] = string(b)
 	}
 	files["src/src.go"] = emitSource(&in)
+	if in.ReplaceLevel == "parent" {
+		files["root.go"] = "// Package m is the module's root package.\npackage m\n\ntype Unmocked struct{ N int }\n"
+	}
 	files["dump.templ"] = dataProbe
 	files["reemit.templ"] = reemitProbe
 	files["mocks/doc.go"] = "package mocks\n"
